@@ -1,3 +1,4 @@
+import Gsp.Model.DidDoc
 import Gsp.Lemmas.Hex
 import Gsp.Model.Json
 /-! C14 — the credential struct view is lossless for merklization.
@@ -321,5 +322,60 @@ theorem claim_hex_spellings (q : Nat) (s slots : List Nat) (h : claimFromHex q s
 example : decode [48, 65, 102, 70] = some [10, 255] ∧ encode [10, 255] = [48, 97, 102, 102] := by decide
 example : ([1, 2, 3, 4, 5, 6, 7, 99] : List Nat).length = 8 ∧ ∀ s ∈ ([1, 2, 3, 4, 5, 6, 7, 99] : List Nat), s < 100 := by decide
 end ClaimHex
+
+/-! ### authentication entries of a DID document (Authentication.UnmarshalJSON / MarshalJSON; model M10b) -/
+section DidAuth
+open Gsp.DidDoc
+
+/-- what the struct keeps of an object is an object, and keeping twice keeps the same (encoding/json: decode, encode, decode) -/
+structure KeepOk (keep : J → J) : Prop where
+  obj : ∀ kvs, ∃ kvs', keep (.obj kvs) = .obj kvs'
+  idem : ∀ j, keep (keep j) = keep j
+
+/-- **an authentication entry is stable under encode / decode**: a reference stays that reference, an embedded method stays
+    that method -/
+theorem auth_roundtrip (keep : J → J) (hk : KeepOk keep) (j : J) (a : Auth) (h : authDecode keep j = .ok a)
+    (hne : j ≠ .str "") : authDecode keep (authEncode a) = .ok a := by
+  cases j with
+  | str s =>
+    have hs : s ≠ "" := fun e => hne (by rw [e])
+    simp [authDecode, hs] at h; subst h
+    simp [authEncode, authDecode, hs]
+  | obj kvs =>
+    simp [authDecode] at h; subst h
+    obtain ⟨kvs', hk'⟩ := hk.obj kvs
+    simp only [authEncode, hk', authDecode]
+    rw [← hk', hk.idem]
+  | null => simp [authDecode] at h
+  | bool b => simp [authDecode] at h
+  | num n => simp [authDecode] at h
+  | arr xs => simp [authDecode] at h
+
+/-- the kind of the entry is decided by the kind of the JSON value, and survives the round trip -/
+theorem auth_kind (keep : J → J) (s : String) (hs : s ≠ "") (kvs : List (String × J)) :
+    (authDecode keep (.str s)).toOption.map Auth.isDID = some true ∧
+    (authDecode keep (.obj kvs)).toOption.map Auth.isDID = some false := by
+  simp [authDecode, hs, Auth.isDID, Except.toOption]
+
+/-- numbers, booleans, null and arrays are refused -/
+theorem auth_other_kinds_refused (keep : J → J) (j : J) (hs : ∀ s, j ≠ .str s) (ho : ∀ kvs, j ≠ .obj kvs) :
+    ∃ e, authDecode keep j = .error e := by
+  cases j with
+  | str s => exact absurd rfl (hs s)
+  | obj kvs => exact absurd rfl (ho kvs)
+  | null => exact ⟨_, rfl⟩
+  | bool b => exact ⟨_, rfl⟩
+  | num n => exact ⟨_, rfl⟩
+  | arr xs => exact ⟨_, rfl⟩
+
+/-- the one entry the round trip does not preserve: the empty string comes back as the empty embedded method (proved witness;
+    an empty string refers to nothing, so it is neither of the forms the property speaks of) -/
+theorem empty_reference_becomes_empty_method (keep : J → J) :
+    (authDecode keep (.str "")).toOption.map authEncode = some (keep (.obj [])) := by
+  simp [authDecode, authEncode, Except.toOption]
+
+/-- non-vacuity: the identity on objects is such a `keep` -/
+example : KeepOk (fun j => j) := ⟨fun kvs => ⟨kvs, rfl⟩, fun _ => rfl⟩
+end DidAuth
 
 end Gsp.Props.C14
